@@ -239,6 +239,28 @@ FIX_TEMPLATES += [
     ("use_fstrings", ["s{k} = ('e %s' % x +", "'tail')"], "s{k}"),
     ("unused_variable", ["u{k} = [x,", "y]"], "x"),
 ]
+# fixes inside nested function contexts: def in async def, async def in def, class body in a function
+NESTED_TEMPLATES = [
+    ("missing_await", ["async def co{k}():", "    asyncio.sleep(0)", "    return x"], "x"),
+    ("missing_await", ["async def co{k}():", "    def inner{k}():", "        asyncio.sleep(0)", "        return x", "    return inner{k}"], "x"),
+    ("missing_await", ["def gen{k}():", "    async def co{k}():", "        asyncio.sleep(0)", "    return co{k}"], "x"),
+    ("missing_await", ["async def co{k}():", "    class C{k}:", "        def m(self):", "            asyncio.sleep(0)", "    return C{k}"], "x"),
+    ("missing_await", ["def gen{k}():", "    asyncio.sleep(0)", "    return x"], "x"),
+    ("use_fstrings", ["async def co{k}():", "    def inner{k}():", "        return 'n %s' % x", "    return inner{k}"], "x"),
+    ("unused_variable", ["async def co{k}():", "    def inner{k}():", "        u{k} = x", "        return y", "    return inner{k}"], "x"),
+    ("too_many_positional_args", ["async def co{k}():", "    return [callee(1, 2, 3, 4, 5, 6, 7, 8, 9, x, i) for i in range(2)]"], "x"),
+]
+# shapes reported to violate the property on the unchanged tree (each is a known finding with a guard, or has a fix proposal)
+REPORTED_TEMPLATES = [
+    ("use_fstrings", ["s{k} = \'\'\'a %s", "b\'\'\' % x"], "s{k}"),                      # (1) last line of a multi-line string
+    ("use_fstrings", ["if y: s{k} = 'a %s' % x", "else: s{k} = ''"], "s{k}"),        # (2) one-line compound statement
+    ("use_fstrings", ["z{k} = 1; s{k} = 'a %s' % x"], "s{k}, z{k}"),                 # (2) semicolon
+    ("use_fstrings", ["s{k} = 'a %s\\n\\n' % x"], "s{k}"),                          # (3) trailing newlines
+    ("use_fstrings", ["s{k} = 'a %.0s' % x"], "s{k}"),                                 # (4) zero precision
+    ("too_many_positional_args", ["t{k} = posonly(1, 2, 3, 4, 5, 6, 7, 8, 9, x, y)"], "t{k}"),  # (5) positional-only
+    ("missing_f", ["s{k} = f'{{{{x}}}} {{y}}'"], "s{k}"),                              # (6) inside an f-string
+]
+FIX_TEMPLATES += NESTED_TEMPLATES + REPORTED_TEMPLATES
 # the replacement attached to unused_ignore reports (remove the comment line / strip the comment)
 FIX_TEMPLATES += [
     ("unused_ignore", ["# static analysis: ignore[bad_unpack]", "print(x)"], "x"),
@@ -251,14 +273,14 @@ FIX_TEMPLATES += [
 ]
 UNUSED_FIX_CFG = {"cli_on": ["unused_ignore"], "cli_off": ["bare_ignore"], "top_off": [], "override": None, "module": "pa.pb"}
 
-FIX_CFG = {"cli_on": ["use_fstrings", "missing_f", "too_many_positional_args"], "cli_off": ["unused_ignore", "bare_ignore"],
+FIX_CFG = {"cli_on": ["use_fstrings", "missing_f", "too_many_positional_args", "missing_await"], "cli_off": ["unused_ignore", "bare_ignore"],
            "top_off": [], "override": None, "module": "pa.pb"}
 
 
 def gen_fix_program(rng, k, forced=None):
     code, body, ret = forced or rng.choice(FIX_TEMPLATES)
     ind = rng.choice([4, 4, 8])
-    lines = ["import os"] + list(CALLEE)
+    lines = ["import os", "import asyncio"] + list(CALLEE) + ["def posonly(a, b, c, d, e, f, g, h, i, j, k, /):", "    return (a, k)"]
     if rng.random() < 0.3:
         lines.insert(0, "# a leading comment")
     lines.append(f"def target(x, y):")
@@ -446,6 +468,36 @@ def removal_facts(text, applied):
     return None
 
 
+def reported_shape_finding(code, text, ap, first_diag, problems):
+    """Decidable guards of the known findings about node replacements (harness level: outside the Coq model)."""
+    if not ap or not ap["del"] or not _parses(text):
+        return None
+    tree = ast.parse(text)
+    lo, hi = min(ap["del"]), max(ap["del"])
+    by_line = collections.Counter(st.lineno for st in ast.walk(tree) if isinstance(st, ast.stmt) and lo <= st.lineno <= hi)
+    if any(n >= 2 for n in by_line.values()):
+        return "C16-shared-physical-line"  # `if c: stmt`, `a; b`: another statement starts on a line of the replaced one
+    line, col = (first_diag[1], first_diag[2]) if first_diag else (None, None)
+    if code == "use_fstrings":
+        for n in ast.walk(tree):
+            if isinstance(n, ast.BinOp) and isinstance(n.op, ast.Mod) and n.lineno == line and n.col_offset == col and isinstance(n.left, ast.Constant) and isinstance(n.left.value, str):
+                import re as _re
+                if _re.search(r"%\.0[sd]", n.left.value):
+                    return "C16-fstring-zero-precision"
+                if "\n\n" in n.left.value:
+                    return "C16-fstring-consecutive-newlines"
+    if code == "too_many_positional_args":
+        posonly = {d.name for d in ast.walk(tree) if isinstance(d, ast.FunctionDef) and d.args.posonlyargs}
+        for n in ast.walk(tree):
+            if isinstance(n, ast.Call) and n.lineno == line and n.col_offset == col and isinstance(n.func, ast.Name) and n.func.id in posonly:
+                return "C16-positional-only-as-keyword"
+    if code == "missing_f":
+        for n in ast.walk(tree):
+            if isinstance(n, ast.JoinedStr) and n.lineno == line and n.col_offset <= col <= (n.end_col_offset or 0):
+                return "C16-missing-f-inside-fstring"
+    return None
+
+
 def fix_job(job):
     """Apply the proposed replacement, re-check, repeat (one replacement per run) up to the fixpoint.
     -> {"steps": [{"text", "out", "applied", "new"}], "final_out", "error"}"""
@@ -475,9 +527,9 @@ def fix_job(job):
 
 def _parses(t):
     try:
-        ast.parse(t)
+        compile(t, "<c16>", "exec")  # also catches what only the compiler rejects (`await` outside async def)
         return True
-    except SyntaxError:
+    except (SyntaxError, ValueError):
         return False
 
 
@@ -758,10 +810,12 @@ def run(tier: str, replay: str | None = None):
                     out_of_node = ast_change_outside_target(code, text, new, before[0][1], before[0][2])
                     if out_of_node:
                         problems.append("syntax tree changed outside the intended node: " + out_of_node)
-                sm = difflib.SequenceMatcher(a=text.splitlines(), b=new.splitlines(), autojunk=False)
-                blocks = [op for op in sm.get_opcodes() if op[0] != "equal"]
-                if len(blocks) != 1:
-                    problems.append(f"{len(blocks)} separate blocks of lines changed")
+                # every changed line lies inside the deleted range: the lines before and after it are kept
+                if ap is not None and ap["del"]:
+                    ol, nl = text.splitlines(), new.splitlines()
+                    a_, b_ = min(ap["del"]), max(ap["del"])
+                    if nl[: a_ - 1] != ol[: a_ - 1] or (nl[len(nl) - (len(ol) - b_):] if len(ol) > b_ else []) != ol[b_:]:
+                        problems.append("lines outside the replaced range changed")
             # tie of C16_statement_replacement: the replacement deletes one consecutive range of lines
             if ap is not None and ap["del"] and sorted(ap["del"]) != list(range(min(ap["del"]), max(ap["del"]) + 1)):
                 problems.append(f"the replacement deletes a non-consecutive set of lines: {ap['del']}")
@@ -818,6 +872,12 @@ def run(tier: str, replay: str | None = None):
                             hist["attributed_" + fid2] += 1
                             rep.known(fid2, known[fid2]["what"])
                             continue
+                fid4 = reported_shape_finding(code, text, ap, before[0] if before else None, problems)
+                if fid4 in known and ap is not None and new == "".join(
+                        [l + "\n" for l in text.splitlines()[: min(ap["del"]) - 1]] + list(ap["add"] or []) + [l + "\n" for l in text.splitlines()[max(ap["del"]):]]):
+                    hist["attributed_" + fid4] += 1
+                    rep.known(fid4, known[fid4]["what"])
+                    break
                 # guard of C16-unindented-continuation-line: the deleted range stops before the last line of the
                 # statement that starts on its first line (and the extracted line_range agrees: checked below)
                 if ap and ap["del"] and any("parse" in p for p in problems) and _parses(text):
